@@ -50,6 +50,28 @@ def check(ix, rep):
     rep.floor('factory branches', nf, 10)
     nio = iastl.check_iovars(ix, rep)
     rep.floor('node constructors checked for in_vars/out_vars', nio, 38)
+    # pastify() keeps the io type of every variable it rebuilds (the delayed copy of an input is still an input)
+    pcls = ix.find_class('rtamt.pastifier.stl.pastifier', 'StlPastifier')
+    nv = 0
+    for c in ix.mro(pcls):
+        from sa.index import ClassInfo as _CI
+        if not isinstance(c, _CI):
+            continue
+        for f in c.methods.values():
+            if ix.resolve_method(pcls, f.name) is not f:
+                continue
+            for call in ast.walk(f.node):
+                if isinstance(call, ast.Call) and isinstance(call.func, ast.Name) and call.func.id == 'Variable':
+                    nv += 1
+                    rep.analysed(f)
+                    nodep = f.node.args.args[1].arg
+                    args = [ast.unparse(a) for a in call.args] + ['%s=%s' % (k.arg, ast.unparse(k.value)) for k in call.keywords]
+                    if len(call.args) >= 3 and ast.unparse(call.args[2]) == '%s.io_type' % nodep or any(a == 'iotype=%s.io_type' % nodep for a in args):
+                        rep.ok('R-IOVARS', f.module.rel, f.qual, 'pastify:Variable@%d' % nv, 'rebuilt with node.io_type', call.lineno)
+                    else:
+                        rep.fail('R-IOVARS', f.module.rel, f.qual, 'pastify:Variable@%d' % nv, 'the pastifier rebuilds a variable as `%s` without its io type: the copy is an output by '
+                                 'default, so after pastify() predicates over a delayed input look output-sensitive' % ast.unparse(call)[:60], call.lineno)
+    rep.floor('Variable reconstructions in the pastifier', nv, 1)
     nt = iastl.check_standard_taint(ix, rep)
     rep.floor('functions scanned for io reads under STANDARD', nt, 300)
     # compression consistency of dense loops (a dropped verdict sample changes the substituted +-inf)
